@@ -4,12 +4,12 @@ Offline checker over the record + tolerant parsers of report / dump / JSON.
 """
 import json, re
 from fractions import Fraction
-from .. import stream
+from .. import gen, stream
 from ..harness import raw, action_name, Fixed, Guarded, Rational
 
 ID = 'C18'
 LEVEL = 'exploration'
-RULE_TEXT = ('random valid profiles (all families; unique names free of ", " and ": ") x all 11 rules x arithmetics incl. display != '
+RULE_TEXT = ('random valid profiles (all families; a quarter with names that read like the words of the package itself or format directives, half of those with two candidates sharing a name) x all 11 rules x arithmetics incl. display != '
              'precision; after each count the record is checked against the live snapshots (raw values), against the audit-trail rules '
              '(begins with the start of the count, ends with end; each elect/defeat names a candidate whose status - or pending flag - '
              'changes there; every status change is announced; end == E.elected/E.defeated) and the report, dump and json texts are '
@@ -90,7 +90,9 @@ def check(run):
     rec = E.record()
     actions = rec['actions']
     wd = set(run.profile.withdrawn)
-    name2cid = {c.name: c.cid for c in E.C}
+    name2cids = {}
+    for c in E.C:
+        name2cids.setdefault(c.name, []).append(c.cid)
     names = {c.cid: c.name for c in E.C}
 
     def bad(key, msg, idx=None):
@@ -169,15 +171,22 @@ def check(run):
             if ev.tag in ('elect', 'defeat'):
                 st['announce'] += 1
                 nm = action_name(ev.msg) if ': ' in ev.msg else None
-                named = name2cid.get(nm)
+                want = 'elected' if ev.tag == 'elect' else 'defeated'
+
+                def moves(cid):
+                    state_changes = cur[cid] == want and vstate[cid] != want
+                    pending_changes = ev.tag == 'elect' and prev is not None and bool(prev.cands[cid].pending) and not ev.cands[cid].pending \
+                        and cur[cid] == 'elected'
+                    return state_changes or pending_changes
+                # candidates are told apart by id; two of them may carry the same printed name (two "Write-in" lines, namesakes):
+                # the action then names whichever of them changes at this step
+                bearers = name2cids.get(nm, [])
+                movers = {cid for cid in bearers if moves(cid) and cur[cid] != vstate[cid]} or {cid for cid in bearers if moves(cid)}
+                named = next(iter(movers), bearers[0] if bearers else None)
                 if named is None:
                     bad('action-names-nobody', '%s action names %r, not a candidate' % (ev.tag, nm), ev.idx)
                 else:
-                    want = 'elected' if ev.tag == 'elect' else 'defeated'
-                    state_changes = cur[named] == want and vstate[named] != want
-                    pending_changes = ev.tag == 'elect' and prev is not None and bool(prev.cands[named].pending) and not ev.cands[named].pending \
-                        and cur[named] == 'elected'
-                    if not (state_changes or pending_changes):
+                    if not moves(named):
                         bad('announced-without-change', '%s action names %s whose status does not change (%s -> %s)'
                             % (ev.tag, nm, vstate[named], cur[named]), ev.idx)
             for cid in changed:
@@ -228,7 +237,10 @@ def check(run):
     else:
         hdr = rows[0]
         col = {h: i for i, h in enumerate(hdr)}
-        ecids = [c.cid for c in sorted(E.C, key=lambda c: c.order) if c.cid not in wd]
+        # every candidate that holds a status (hopeful / elected / defeated) at any step of the record must have its dump columns:
+        # the report and the JSON show it, so the dump must too
+        with_status = {cid for A in actions if A.get('cstate') for cid, cst in A['cstate'].items() if cst.get('state') != 'withdrawn'}
+        ecids = [c.cid for c in sorted(E.C, key=lambda c: c.order) if c.cid not in wd or c.cid in with_status]
         for A, row in zip(actions, rows[1:]):
             st['dump_rows'] += 1
             idx = actions.index(A) if False else None
@@ -252,11 +264,11 @@ def check(run):
                 exp['%s.name' % cid] = names[cid]
                 exp['%s.state' % cid] = code
                 if method == 'qpq':
-                    exp['%s.quotient' % cid] = str(cst['quotient'])
+                    exp['%s.quotient' % cid] = str(cst.get('quotient'))
                 else:
-                    exp['%s.vote' % cid] = str(cst['vote'])
+                    exp['%s.vote' % cid] = str(cst.get('vote'))
                     if method == 'meek':
-                        exp['%s.kf' % cid] = str(cst['kf'])
+                        exp['%s.kf' % cid] = str(cst.get('kf'))
             for k, v in exp.items():
                 if k not in col:
                     bad('dump-missing-column', 'dump header lacks %s' % k)
@@ -438,10 +450,19 @@ def main_driver(ctx, case):
         ctx.violation('main-report-differs', 'the report printed by Droop.main differs from Election.report() of the same count', case.replay_case())
 
 
+def odd_names(rng, s):
+    "names are data: some read like the package's own words or format directives, and two candidates may share one"
+    k = rng.random()
+    if k < 0.12:
+        s['names'] = gen.hostile_names(rng, s['nc'])
+    elif k < 0.24:
+        s['names'] = gen.hostile_names(rng, s['nc'], repeats=True)
+
+
 def shard(ctx):
     n_min = 60 if ctx.quick else 400
     for i, rng in ctx.cases(n_min, 10 ** 9):
-        case = stream.make_case(ctx, rng, WEIGHTS, render=True)
+        case = stream.make_case(ctx, rng, WEIGHTS, render=True, mutate_s=odd_names)
         if i % 50 == 7 and case.run.complete and case.run.other is None:
             main_driver(ctx, case)
         if not stream.usable(ctx, case):
